@@ -13,8 +13,11 @@ pole table, every history of dialog events, every damping / mode-shape / covaria
 
 The property's premise "non-overlapping tolerance bands" is not needed: the closeness test compares the
 selected pole with the request itself (`np.isclose(pole, fj, rtol)`), and the request IS a pole of its
-column.  `0 ≤ rtol` is the only hypothesis (a negative `rtol` makes `np.isclose(f, f)` false for
-`|f| > 1e-8 / |rtol|`: nothing would be returned).
+column.  `0 ≤ rtol` is the only hypothesis; it is forced by the model's `isclose`
+(`|a − b| ≤ 1e-8 + rtol·|b|`, `Model/NanTable.lean`), which for `rtol < 0` rejects `isclose f f` when
+`|f| > 1e-8 / |rtol|`.  At that excluded point the real routines (tried: `rtol = -0.01`) still return the
+handed-over poles, because numpy's `isclose` has the extra disjunct `| (x == y)`, which the model does not
+mirror — a modelling gap of C11 for negative tolerances, not a defect of the library.
 -/
 namespace PV.C16
 open PV PV.Pick
